@@ -3,7 +3,14 @@ from dbcommon import *
 import sched as S
 
 PROP = "C08"
-THEOREMS = []
+THEOREMS = [
+    ("C08_roundtrip", "forall producer ws log, Forall in_bounds ws -> table_small ws -> log_of ws = Ok log -> exists st, db_open true producer log = OpenOk st log /\\ forall b, loaded_for st b = last_applicable producer ws b None"),
+    ("C08_writer_total", "forall ws, Forall in_bounds ws -> table_small ws -> exists log, log_of ws = Ok log"),
+    ("C08_applied_only_if_all_outputs_match", "forall producer ws log st b deps h, Forall in_bounds ws -> table_small ws -> log_of ws = Ok log -> db_open true producer log = OpenOk st log -> loaded_for st b = Some (deps, h) -> exists w, In w ws /\\ w_deps w = deps /\\ w_hash w = h /\\ w_outs w <> [] /\\ forall o, In o (w_outs w) -> producer o = Some b"),
+    ("C08_renumbering_invariant", "forall producer sigma log st1 st2, (forall x y : nat, sigma x = sigma y -> x = y) -> db_open true producer log = OpenOk st1 log -> db_open true (fun n => option_map sigma (producer n)) log = OpenOk st2 log -> forall b, loaded_for st2 (sigma b) = loaded_for st1 b"),
+    ("C08_renumbering_opens", "forall producer sigma log st1 f, (forall x y : nat, sigma x = sigma y -> x = y) -> db_open true producer log = OpenOk st1 f -> exists st2, db_open true (fun n => option_map sigma (producer n)) log = OpenOk st2 f /\\ ld_tbl st2 = ld_tbl st1 /\\ forall b, loaded_for st2 (sigma b) = loaded_for st1 b"),
+    ("C08_pinned_attribution_refuted", "exists producer ws log st b, log_of ws = Ok log /\\ db_open false producer log = OpenOk st log /\\ loaded_for st b <> None /\\ last_applicable producer ws b None = None"),
+]
 
 
 def reorder_manifest(rng, text):
@@ -47,7 +54,7 @@ def reorder_manifest(rng, text):
 def main(tier, seed, replay=None):
     run = Run(PROP, tier, seed, "proof")
     rng = random.Random(seed)
-    info, problems = proof_gate(PROP, THEOREMS, extra_modules=["Model.All"], thorough=(tier == "thorough"))
+    info, problems = proof_gate(PROP, THEOREMS, extra_modules=["Model.All", "Proofs.DbSpec"], thorough=(tier == "thorough"))
     for p in problems:
         run.tie("proof gate", p)
     drv = build_driver()
